@@ -342,7 +342,7 @@ def _docs(tier):
     return _DOCS[tier]
 
 
-GRID_SUBDIV = [1, 2, 3, 4, 5, 6, 7, 8, 9, 11, 12, 13, 16, 17, 24, 32, 48, 64, 96, 192]
+GRID_SUBDIV = [1, 2, 3, 4, 5, 6, 7, 8, 9, 11, 12, 13, 16, 17, 24, 32, 48, 64, 96, 192, 101, 125, 384, 480, 1000]  # the last five: beat fractions with denominators beyond 100
 
 
 B36 = "0123456789ABCDEFGHIJKLMNOPQRSTUVWXYZ"
